@@ -18,6 +18,20 @@ struct S2(u32, Vec<u8>);
 struct C1(u32, Vec<u8>);
 #[derive(Event, Serialize, Deserialize, Debug, Clone)]
 struct C2(u32, Vec<u8>);
+// more client channels than server channels
+#[derive(Event, Serialize, Deserialize, Debug, Clone)]
+struct C3(u32, Vec<u8>);
+#[derive(Event, Serialize, Deserialize, Debug, Clone)]
+struct C4(u32, Vec<u8>);
+
+/// A second connection held by the server process itself; dropped from inside a server frame (after
+/// the receive phase, before the send phase) while unread data sits in its socket, so that the
+/// server's next write to it fails.
+#[derive(Resource, Default)]
+struct Victim {
+    client: Option<ExampleClient>,
+    drop_now: bool,
+}
 
 /// (kind, seq, payload ok)
 #[derive(Resource, Default)]
@@ -53,6 +67,15 @@ fn mk() -> App {
     .make_event_independent::<S2>()
     .add_client_event::<C1>(Channel::Ordered)
     .add_client_event::<C2>(Channel::Ordered)
+    .add_client_event::<C3>(Channel::Ordered)
+    .add_client_event::<C4>(Channel::Ordered)
+    .init_resource::<Victim>()
+    .add_systems(Update, |mut v: ResMut<Victim>| {
+        if v.drop_now {
+            v.drop_now = false;
+            v.client = None;
+        }
+    })
     .add_systems(
         Last,
         (
@@ -76,6 +99,16 @@ fn mk() -> App {
                     g.0.push((4, e.event.0, e.event.1 == payload(4, e.event.0)));
                 }
             },
+            |mut r: EventReader<FromClient<C3>>, mut g: ResMut<Got>| {
+                for e in r.read() {
+                    g.0.push((5, e.event.0, e.event.1 == payload(5, e.event.0)));
+                }
+            },
+            |mut r: EventReader<FromClient<C4>>, mut g: ResMut<Got>| {
+                for e in r.read() {
+                    g.0.push((6, e.event.0, e.event.1 == payload(6, e.event.0)));
+                }
+            },
         ),
     );
     app.finish();
@@ -83,6 +116,7 @@ fn mk() -> App {
 }
 
 const MARK: u32 = 1 << 30;
+const NAMES: [&str; 7] = ["", "S1", "S2", "C1", "C2", "C3", "C4"];
 
 struct Case {
     desc: Vec<String>,
@@ -91,11 +125,12 @@ struct Case {
     rounds: u32,
     messages: u64,
     max_burst: u64,
+    victims: u64,
 }
 
 fn run_case(seed: u64) -> Case {
     let mut rng = Rng::new(seed);
-    let mut case = Case { desc: vec![], errs: vec![], inconclusive: None, rounds: 0, messages: 0, max_burst: 0 };
+    let mut case = Case { desc: vec![], errs: vec![], inconclusive: None, rounds: 0, messages: 0, max_burst: 0, victims: 0 };
     let r = catch_unwind(AssertUnwindSafe(|| {
         let mut server = mk();
         let mut client = mk();
@@ -131,18 +166,46 @@ fn run_case(seed: u64) -> Case {
             case.inconclusive = Some("loopback connection not established after 200 frames".into());
             return;
         }
-        let mut next = [0u32; 5];
+        // sometimes a second connection, owned by the server process, that never reads
+        let with_victim = rng.below(3) == 0;
+        if with_victim {
+            match ExampleClient::new(port) {
+                Ok(v) => server.world_mut().resource_mut::<Victim>().client = Some(v),
+                Err(e) => {
+                    case.inconclusive = Some(format!("cannot open the second loopback connection: {e}"));
+                    return;
+                }
+            }
+            for _ in 0..200 {
+                server.update();
+                let mut q = server.world_mut().query::<&ConnectedClient>();
+                if q.iter(server.world()).count() == 2 {
+                    break;
+                }
+                std::thread::sleep(Duration::from_millis(1));
+            }
+        }
+        let expected_clients = |victim_alive: bool| 1 + victim_alive as usize;
+        let mut victim_alive = with_victim;
+        let mut next = [0u32; 7];
         let rounds = 3 + rng.below(4);
         for round in 0..rounds {
             case.rounds += 1;
             // what is queued between two receiver frames, per kind
-            let mut sent: [Vec<u32>; 5] = Default::default();
-            let n: [usize; 5] = [0, 1 + rng.below(60), rng.below(40), 1 + rng.below(60), rng.below(30)];
+            let mut sent: [Vec<u32>; 7] = Default::default();
+            let n: [usize; 7] = [0, 1 + rng.below(60), rng.below(40), 1 + rng.below(60), rng.below(30), rng.below(20), rng.below(20)];
             let sub = 1 + rng.below(3);
+            // the second connection breaks inside the first server frame that sends this round's events
+            let kill_victim = victim_alive && round >= 1 && rng.below(2) == 0;
+            if kill_victim {
+                server.world_mut().resource_mut::<Victim>().drop_now = true;
+                victim_alive = false;
+                case.victims += 1;
+            }
             for part in 0..sub {
                 // interleave kinds randomly inside a sender frame
                 let mut todo: Vec<u8> = vec![];
-                for k in 1..=4u8 {
+                for k in 1..=6u8 {
                     let share = n[k as usize] / sub + if part == 0 { n[k as usize] % sub } else { 0 };
                     todo.extend(std::iter::repeat(k).take(share));
                 }
@@ -164,8 +227,14 @@ fn run_case(seed: u64) -> Case {
                         3 => {
                             client.world_mut().send_event(C1(seq, p));
                         }
-                        _ => {
+                        4 => {
                             client.world_mut().send_event(C2(seq, p));
+                        }
+                        5 => {
+                            client.world_mut().send_event(C3(seq, p));
+                        }
+                        _ => {
+                            client.world_mut().send_event(C4(seq, p));
                         }
                     }
                 }
@@ -179,19 +248,25 @@ fn run_case(seed: u64) -> Case {
                     client.update();
                 }
             }
-            let burst: u64 = (1..=4).map(|k| sent[k].len() as u64).sum();
+            let burst: u64 = (1..=6).map(|k| sent[k].len() as u64).sum();
             case.messages += burst;
-            case.max_burst = case.max_burst.max((sent[1].len() + sent[2].len()).max(sent[3].len() + sent[4].len()) as u64);
-            case.desc.push(format!("round {round}: S1 x{} S2 x{} C1 x{} C2 x{} in {sub} sender frame(s)", sent[1].len(), sent[2].len(), sent[3].len(), sent[4].len()));
+            case.max_burst = case.max_burst.max((sent[1].len() + sent[2].len()).max(sent[3].len() + sent[4].len() + sent[5].len() + sent[6].len()) as u64);
+            case.desc.push(format!(
+                "round {round}: S1 x{} S2 x{} C1 x{} C2 x{} C3 x{} C4 x{} in {sub} sender frame(s){}",
+                sent[1].len(), sent[2].len(), sent[3].len(), sent[4].len(), sent[5].len(), sent[6].len(),
+                if kill_victim { "; a second connection breaks inside the server's sending frame" } else { "" }
+            ));
             // end-of-round markers: TCP is ordered, so a marker that arrives proves everything before it was readable
             server.world_mut().send_event(ToClients { mode: SendMode::Broadcast, event: S1(MARK + round as u32, vec![]) });
             server.world_mut().send_event(ToClients { mode: SendMode::Broadcast, event: S2(MARK + round as u32, vec![]) });
             client.world_mut().send_event(C1(MARK + round as u32, vec![]));
             client.world_mut().send_event(C2(MARK + round as u32, vec![]));
+            client.world_mut().send_event(C3(MARK + round as u32, vec![]));
+            client.world_mut().send_event(C4(MARK + round as u32, vec![]));
             server.update();
             client.update();
-            let mut got: [Vec<(u32, bool)>; 5] = Default::default();
-            let mut marks = [false; 5];
+            let mut got: [Vec<(u32, bool)>; 7] = Default::default();
+            let mut marks = [false; 7];
             let mut idle_frames = 0;
             let mut frames = 0;
             // Loopback TCP hands the bytes to the receiving socket during the sender's write, so a
@@ -199,10 +274,10 @@ fn run_case(seed: u64) -> Case {
             // kernel: the stream is stalled. Only a connection that went away makes the case inconclusive.
             while idle_frames < 300 && frames < 3000 {
                 let mut progress = false;
-                for (app, kinds) in [(&mut client, [1u8, 2]), (&mut server, [3u8, 4])] {
+                for (app, kinds) in [(&mut client, &[1u8, 2][..]), (&mut server, &[3u8, 4, 5, 6][..])] {
                     let g = std::mem::take(&mut app.world_mut().resource_mut::<Got>().0);
                     for (k, s, ok) in g {
-                        if (k == 1 || k == 2) && kinds == [3, 4] {
+                        if (k == 1 || k == 2) && kinds.contains(&3) {
                             // Broadcast includes the local server: its own re-emission, not transport traffic
                         } else if !kinds.contains(&k) {
                             case.errs.push(format!("round {round}: kind {k} seq {s} observed on the wrong side / channel"));
@@ -227,11 +302,11 @@ fn run_case(seed: u64) -> Case {
             if !marks[1..].iter().all(|m| *m) {
                 let up = client.world().resource::<RepliconClient>().is_connected() && {
                     let mut q = server.world_mut().query::<&ConnectedClient>();
-                    q.iter(server.world()).count() == 1
+                    q.iter(server.world()).count() == expected_clients(victim_alive)
                 };
-                let missing: Vec<String> = (1..=4usize)
+                let missing: Vec<String> = (1..=6usize)
                     .filter(|k| !marks[*k])
-                    .map(|k| format!("{}: {} of {} arrived", ["", "S1", "S2", "C1", "C2"][k], got[k].len(), sent[k].len()))
+                    .map(|k| format!("{}: {} of {} arrived", NAMES[k], got[k].len(), sent[k].len()))
                     .collect();
                 if up {
                     case.errs.push(format!("round {round}: delivery stalled although the connection is up - no message arrived during {idle_frames} receiver frames ({})", missing.join(", ")));
@@ -240,7 +315,7 @@ fn run_case(seed: u64) -> Case {
                 }
                 return;
             }
-            for k in 1..=4usize {
+            for k in 1..=6usize {
                 let seqs: Vec<u32> = got[k].iter().map(|(s, _)| *s).collect();
                 if seqs != sent[k] {
                     let mut sorted = seqs.clone();
@@ -253,7 +328,7 @@ fn run_case(seed: u64) -> Case {
                     } else {
                         format!("{} of {} arrived although the later marker did", seqs.len(), sent[k].len())
                     };
-                    case.errs.push(format!("round {round} kind {}: {} messages queued between two receiver frames {what}", ["", "S1", "S2", "C1", "C2"][k], sent[k].len()));
+                    case.errs.push(format!("round {round} kind {}: {} messages queued between two receiver frames {what}", NAMES[k], sent[k].len()));
                 }
                 if got[k].iter().any(|(_, ok)| !ok) {
                     case.errs.push(format!("round {round} kind {k}: payload corrupted"));
@@ -299,6 +374,7 @@ fn main() {
         res.obs.add("rounds", c.rounds as u64);
         res.obs.add("messages_sent", c.messages);
         res.obs.max("max_messages_piled_up_for_one_receiver_frame", c.max_burst);
+        res.obs.add("second_connections_broken_inside_a_sending_frame", c.victims);
         if let Some(i) = c.inconclusive {
             inconclusive += 1;
             first_inconclusive.get_or_insert(i);
@@ -322,6 +398,6 @@ fn main() {
     let mut j = res.to_json();
     // a minority of overloaded rounds is tolerated and reported; a majority makes the shard inconclusive
     j["harness_errors"] = if inconclusive * 2 > res.runs.max(1) { json!([format!("{inconclusive} of {} cases inconclusive: {}", res.runs, first_inconclusive.unwrap_or_default())]) } else { json!([]) };
-    j["rule"] = json!("one case = one fresh server App + client App connected through the example backend over a real loopback TCP socket (no link conditioner), 3..6 rounds; per round 1..60 / 0..39 independent ordered server events on two channels and 1..60 / 0..29 client events on two channels (payload lengths 0..1100 derived from the sequence number) are queued in 1..3 sender frames in random interleaving, then end-of-round markers; the receiver's per-channel sequence must equal the sent sequence and every payload must be intact; a case whose markers do not arrive in 400 frames is inconclusive (not a violation); non-trivial = >=12 messages piled up for one receiver frame; distinct = distinct round description");
+    j["rule"] = json!("one case = one fresh server App + client App connected through the example backend over a real loopback TCP socket (no link conditioner), 3..6 rounds; per round 1..60 / 0..39 independent ordered server events on two channels and 1..60 / 0..29 / 0..19 / 0..19 client events on four channels (more client than server channels); in a third of the cases a second connection, held by the server process and never read, is dropped from inside a server frame between its receive and send phases so that the server's write to it fails while the first client's messages are queued behind it; (payload lengths 0..1100 derived from the sequence number) are queued in 1..3 sender frames in random interleaving, then end-of-round markers; the receiver's per-channel sequence must equal the sent sequence and every payload must be intact; a case whose markers do not arrive in 400 frames is inconclusive (not a violation); non-trivial = >=12 messages piled up for one receiver frame; distinct = distinct round description");
     write_json(&out, &j);
 }
